@@ -46,7 +46,7 @@ func main() {
 		}
 		json.Unmarshal(b, &v)
 		*prop = v.Property
-		code := runProperty(*prop, "quick", *repo, *verif, "", true, false, v.Obligation.Key)
+		code := runProperty(*prop, "quick", *repo, *verif, "", true, false, v.Obligation.Key, nil)
 		os.Exit(code)
 	}
 	if *prop == "dbg-cty" {
@@ -66,14 +66,21 @@ func main() {
 	if t := os.Getenv("VERIF_TIER"); t != "" && *tier == "" {
 		*tier = t
 	}
-	code := runProperty(*prop, *tier, *repo, *verif, *goarch, *noEvidence, *list, "")
-	if code == 0 && *tier == "thorough" && !*noEvidence {
-		code = runThorough(*prop, *repo, *verif)
+	var extra map[string]interface{}
+	if *tier == "thorough" {
+		if _, ok := propRules[*prop]; ok {
+			c, ex := thoroughExtras(*prop, *repo, *verif, *noEvidence)
+			if c != 0 {
+				os.Exit(c)
+			}
+			extra = ex
+		}
 	}
+	code := runProperty(*prop, *tier, *repo, *verif, *goarch, *noEvidence, *list, "", extra)
 	os.Exit(code)
 }
 
-func runProperty(prop, tier, repo, verif, goarch string, noEvidence, list bool, onlyKey string) int {
+func runProperty(prop, tier, repo, verif, goarch string, noEvidence, list bool, onlyKey string, extraCov map[string]interface{}) int {
 	start := time.Now()
 	rules, ok := propRules[prop]
 	if !ok {
@@ -138,6 +145,12 @@ func runProperty(prop, tier, repo, verif, goarch string, noEvidence, list bool, 
 	wall := time.Since(start).Seconds()
 	nFuncs := len(p.Funcs)
 	extra := map[string]interface{}{"packages_analysed": len(p.Pkgs), "functions_analysed": nFuncs, "goarch": goarch}
+	for k, v := range extraCov {
+		extra[k] = v
+	}
+	if nd, ok := notDecided[prop]; ok {
+		r.NotDecided = append(r.NotDecided, nd...)
+	}
 	var paths []string
 	if !noEvidence {
 		if err := writeEvidence(verif, r, out, tier, seed, wall, extra); err != nil {
